@@ -19,6 +19,25 @@ CLAIMED = {
              "instances; thorough: all 65x8.",
         technique="bounded model checking (Kani/CBMC, SAT) of harnesses over symbolic values, widths/phases/cuts enumerated",
         ref="§6 C12"),
+    "C13": dict(
+        text="Bounded model checking (Kani) of the real Range code: degenerate range yields 0, from_min_max is total and rejects exactly "
+             "unusable pairs, normalize never panics for any f64 triple, and the range-selection rule (limits iff both present and of a supported "
+             "kind, else the data type's range) for every combination of attribute type and limit kinds with symbolic values. The value claims that "
+             "need the result of a 64-bit float division for all operands ([0,1], monotone, formula) did not finish by bit-blasting and are decided "
+             "in the M-lane with division axiomatised (see DESIGN C13).",
+        note="Trusted: Kani/CBMC float semantics (IEEE-754 RNE). format! stubbed. Selection instances restrict magnitudes (<1e30, <2^40).",
+        technique="bounded model checking (Kani/CBMC) over symbolic f64/i64 values; attribute/limit kinds enumerated",
+        ref="§6 C13"),
+    "C11": dict(
+        engine="kani+mirsym",
+        text="Inductive bounded checking of the page layer at the real page size: the MIR of PagedWriter/PagedReader is executed symbolically from an "
+             "ARBITRARY state satisfying a stated representation invariant (any cursor, any page, any device content of <= 8 pages, any argument), and "
+             "z3 decides per path that the invariant is preserved and the abstract logical stream changes exactly as specified; plus explicit symbolic "
+             "histories from new() through flush/seek/patch and back through PagedReader. Counterexamples are replayed natively through the public API.",
+        note="Trusted: mirsym's MIR interpreter and its std models (slice ops, write_all/read_exact loops, io::copy), z3. CRC replaced by a sampled "
+             "checksum (which bytes are summed, where it is stored); the CRC function itself is C07. Bounds: device <= 8 pages, write <= 3000 B per call.",
+        technique="symbolic execution of rustc MIR into SMT (z3), inductive step from arbitrary invariant state; Kani for small-page instances",
+        ref="§6 C11"),
 }
 
 NOT_APPLICABLE = {
